@@ -38,6 +38,17 @@ func (p *Program) Units(prefixes ...string) []*FuncUnit {
 	return out
 }
 
+// UnitsIn returns the declared functions of exactly one package (no sub-packages).
+func (p *Program) UnitsIn(pkgRel string) []*FuncUnit {
+	var out []*FuncUnit
+	for _, u := range p.Units(pkgRel) {
+		if relPkg(u.Pkg.Types) == pkgRel {
+			out = append(out, u)
+		}
+	}
+	return out
+}
+
 func (p *Program) Unit(pkgRel, name string) *FuncUnit {
 	fn := p.LookupFunc(pkgRel, name)
 	fd := p.MustDecl(fn)
@@ -285,6 +296,15 @@ func GuardsOf(info *types.Info, body *ast.BlockStmt, target ast.Node) []Guard {
 		case *ast.ForStmt:
 			if child == p.Body && p.Cond != nil {
 				gs = append(gs, Guard{p.Cond, true})
+			}
+		case *ast.BinaryExpr:
+			// short-circuit evaluation: in `X && Y`, Y only runs when X holds; in `X || Y` when it does not
+			if child == p.Y {
+				if p.Op == token.LAND {
+					gs = append(gs, Guard{p.X, true})
+				} else if p.Op == token.LOR {
+					gs = append(gs, Guard{p.X, false})
+				}
 			}
 		case *ast.SwitchStmt:
 			// tagless switch: the matching case condition holds
